@@ -4,6 +4,8 @@ from vlib import common
 
 def key_fn(case, obs, verdict):
     f = case.split(" ")
+    if f[0] == "hookn":
+        return "registry-hook-nested:%s:%s" % (f[1], "product-config")
     if f[0] == "hook":
         return "registry-hook:%s-def%s:%s:%s" % (f[1], f[2], f[3], verdict.split("(")[0])
     # shape + requested form + which part of the specification fails
